@@ -410,9 +410,9 @@ func gen(body []byte) *core.Verdict {
 
 func cfgs(tier string) []string {
 	if tier == "thorough" {
-		return []string{"raw5", "dq1_6", "dq2_6", "pat_6", "cmt_6", "sq_6", "mb_5", "tok6"}
+		return []string{"raw5", "dq1_6", "dq2_6", "dq3_6", "pat_6", "cmt_6", "sq_6", "mb_5", "tok5"}
 	}
-	return []string{"raw4", "dq1_5", "dq2_5", "pat_5", "cmt_5", "sq_5", "mb_4", "tok5"}
+	return []string{"raw4", "dq1_5", "dq2_5", "dq3_5", "pat_5", "cmt_5", "sq_5", "mb_4", "tok5"}
 }
 
 func check(r *core.Run, prop string) {
@@ -435,8 +435,12 @@ func check16(r *core.Run) {
 	check(r, "C16")
 	r.Rule = "Text part as C02 but comparing positions: the file:line:col of every statement of every accepted text, and the leading file:line:col of the first error for every rejected text with exactly one token-level fault (invalid escape, unterminated string or comment, the first token the grammar does not allow; a `+` not followed by a quoted string is disputable and skipped; end-of-input reports are outside the claim). " + r.Rule
 	Semantic(r)
+	Resolve(r)
 }
 
 // semantic is filled in by the Ast family part of C16 (positions in errors
 // from building and resolving a module).
 var Semantic = func(r *core.Run) {}
+
+// Resolve is filled in by the hazard family: positions in errors from resolving.
+var Resolve = func(r *core.Run) {}
